@@ -210,6 +210,19 @@ def nat_findings_c13(h):
                     'quoted cells holding CRLF / CR, strip=False', want, got[1] if got[0] == 'ok' else got[:2])
 
 
+        with finding(h, 'initial-space-sniffed'):
+            p = os.path.join(d, 'pad.csv')
+            header, rows = ['h0', 'h1'], [['x', 'y'], ['line\nbreak', ' pad ']]
+            with open(p, 'w', newline='', encoding='utf-8') as f:
+                w = csv.writer(f)
+                w.writerow(header)
+                w.writerows(rows)
+            got = h.run(lambda: Flow(load(p, strip=False, infer_strategy=load.INFER_STRINGS, cast_strategy=load.CAST_TO_STRINGS)).results()[0][0])
+            want = [dict(zip(header, r)) for r in rows]
+            h.check(got[0] == 'ok' and got[1] == want, 'dataflows/processors/load.py::load.safe_process_datapackage',
+                    'a quoted cell followed by ", pad ": blanks that open a cell, strip=False', want, got[1] if got[0] == 'ok' else got[:2])
+
+
 # ------------------------------------------------------------------------------------------------ C14
 
 def nat_findings_c14(h):
